@@ -96,7 +96,7 @@ DsRead ==
   /\ ph = 0 /\ ph' = 1
   /\ \E d \in 1..2 : \E mode \in {"label", "position"} :
      \E ix \in (IF mode = "label" THEN LabelMenu(FileVars["a"].labs[d]) ELSE PosMenu(Len(FileVars["a"].labs[d]))) :
-       /\ ix.k # "sc"          \* (a scalar index on the dataset-level handle is outside the property: variables are read one by one there)
+       \* (a scalar index on the dataset-level handle drops the dimension from every variable and from the Dataset: F38)
        /\ in' = [NoIn EXCEPT !.fam = "dsread", !.v = "a", !.idxs = <<ix>>, !.mode = mode, !.nd = d, !.cfg = FileVars["a"]]
        /\ out' = Take(FileVars["a"], [i \in 1..2 |-> IF i = d THEN ix ELSE IxAll], mode, <<>>)
 \* unlimited dimension t: variable u(t) or u(t, x); n0 initial slices, then appended slabs with their labels
